@@ -144,6 +144,11 @@ def body(ctx):
         for ki in range(nkeys + len(boundary)):
             path = os.path.join(tmp, ('key%d', 'adbkey%d.tv', 'my.key%d.pem')[ki % 3] % ki)      # key file names with dots in them: the public key is always <name>.pub
             if ki < nkeys:
+                if ki % 2:
+                    # the key path itself is a symbolic link into a key store: both files are still <path> and <path>.pub for whoever uses <path>
+                    store = os.path.join(tmp, 'store%d' % ki)
+                    os.makedirs(store, exist_ok=True)
+                    os.symlink(os.path.join(store, 'host-key'), path)
                 keygen.keygen(path)
             else:
                 # a stored key whose Montgomery parameters have a leading zero byte (rr = 2^4096 mod n below 2^2040, about one key in 256;
